@@ -8,16 +8,21 @@ routers/legacy (router.go `NewRouter`, `FindRoute`; pathpattern/node.go `CreateN
     lists are kept sorted (constants first, larger pattern first, then variable, then wildcard);
   * `Match` strips trailing slashes of "METHOD remainingPath" and walks the trie with backtracking,
     including the branch that lets a "/" suffix match exhausted input;
-  * server selection: no servers → URL path; otherwise the first server whose URL pattern `MatchRawURL`
-    accepts the raw request URL (variables stop at the next pattern character or '/');
+  * server selection: no servers → URL path; otherwise the first document-level server whose URL pattern `MatchRawURL`
+    accepts the raw request URL (variables stop at the next pattern character or '/'); path-item level servers are not
+    read; the returned `*Route` is the one stored by NewRouter, its `Server` is never set (`setSrv`);
+  * NewRouter `Add`s the keys while ranging over Go maps: the trie is built from an explicit key list (`legacyRootOf`),
+    two keys with the same suffix path overwrite each other (last one wins, `keyCollision`);
   * no trie match → literal lookup of the remaining path among the path keys: no such key → path-not-found; key
     without the method → method-not-allowed; key with the method (the request path spells a template that the trie
     does not match, e.g. "/{id}.json") → path-not-found.
 routers/gorillamux (router.go `NewRouter`, `makeServers`, `newSrv`, `permutePart`, `FindRoute`;
 openapi3/paths.go `InMatchingOrder`):
-  * route list = paths in matching order × servers; a route matches when path template (base path + path),
-    scheme set and host template match; the first such route decides: method declared → route, else
-    method-not-allowed; no such route → path-not-found;
+  * route list = paths in matching order × servers (`gLoop`: the servers are the document's, or the path item's own —
+    and, as the code assigns the function-level variable, those of the last earlier path item that had its own);
+    each route keeps the `*openapi3.Server` it was built for (`SrvRef`); a route matches when path template (base
+    path + path), scheme set and host template match; the first such route decides: method declared → a copy of the
+    route with that server, else method-not-allowed; no such route → path-not-found;
   * gorilla/mux templates are modelled as anchored regular expressions with `[^/]+` (path) / `[^.]+` (host)
     variables, greedy leftmost-first (longest value first, backtracking).
 Abstracted: net/url parsing (requests are given as scheme/host/path of unreserved characters), regexp engine.
